@@ -757,6 +757,8 @@ def run_real(ctx, lines, pending):
         todo.append((gids, use_ref, False, True))
         todo.append((gids, use_ref, True, True))
         todo.append((gids, use_ref, True, False))
+        # a static reference catalog (expand_refcat off) is aligned in user order whatever enforce_user_order says
+        todo.append((gids, use_ref, False, False))
     for _ in range(ctx.n(8, 60)):
         n = rng.randint(3, 6)
         gids = [rng.choice([None, None, 1, 2]) for _ in range(n)]
@@ -771,6 +773,13 @@ def run_real(ctx, lines, pending):
             continue
         sc, sd = (wrap_scene, wrap_seed) if k % 3 == 1 else (scene, scene_seed)
         real_run(ctx, sc, gids, origins, use_ref, expand, enforce, lines, pending, sd)
+    # fixed mosaics whose largest overlap is NOT between the first two groups of the list: with a static reference
+    # catalog (expand_refcat off) the first group is the reference all the same, with expansion the overlap decides
+    for gids, origins in (([None, None, None], [(0, 0), (600, 0), (650, 50)]),
+                          ([None, None, None, None], [(0, 0), (700, 0), (0, 700), (60, 740)]),
+                          ([1, None, None, 1], [(0, 0), (500, 600), (560, 640), (0, 1100)])):
+        for expand, enforce in ((False, False), (True, False), (False, True)):
+            real_run(ctx, scene, gids, origins, False, expand, enforce, lines, pending, scene_seed)
 
 
 def compare_all(ctx, outs, pending):
